@@ -11,6 +11,7 @@ import (
 
 func init() {
 	register("C06", func(c *core.Ctx, tier string) {
+		baseServerEffects(c, "C06.10")
 		accessorAgreement(c, "C06.8")
 		constructorChain(c, "C06.9")
 		c06OpenFields(c)
